@@ -156,7 +156,7 @@ parse_header(RPFrame *frame, void *buf, size_t n)
     case RP_FRAME_READ_RESPONSE:
         /* FALLTHROUGH */
     case RP_FRAME_WRITE_RESPONSE:
-        if (frame->header.meta.raw > RP_RESP_EINVALID) {
+        if (frame->header.meta.raw > RP_RESP_EIO) {
             return -EBADMSG;
         }
         break;
